@@ -1,6 +1,7 @@
 import PromModel.Tsdb.Snapshot
 import PromModel.Suites.SnapSuite
 import PromProofs.Snapshot
+import PromProofs.SnapshotClean
 /-
   C23 — restart from a memory snapshot equals restart from the WAL.
 
@@ -65,6 +66,62 @@ example : ∃ s, exampleDisk.snap = some s ∧ SnapIsPrefixImage exampleDisk.db.
     s.pos = 2 ∧ exampleDisk.db.wal.length = 4 := by
   refine ⟨_, rfl, ?_, by decide, by decide⟩
   unfold SnapIsPrefixImage
+  decide
+
+/-! ### Clean shutdown -/
+
+/-- A clean shutdown with snapshot followed by a start from the snapshot restores exactly the series
+    of the live head (labels, samples, tombstones; series without samples are dropped as by
+    `Head.gc`) and the blocks — for EVERY state whose series indices are distinct and whose head
+    samples are not below the replay cutoff, every cut between m-mapped chunks and head chunk, and
+    both versions of the tail replay (the WAL behind the position is empty: F31 cannot bite). -/
+theorem clean_restart_restores_head (mm0 : Option Int) (cut : Nat → Nat) (x : SnapDb)
+    (hnd : (x.db.series.map (·.idx)).Nodup)
+    (hge : ∀ s ∈ x.db.series, ∀ p ∈ s.phys, x.db.rwCut ≤ p.t) :
+    ((x.closeWithSnapshot cut).reopenWithSnapshot mm0).db.series = x.db.series.filter (fun s => !s.phys.isEmpty) ∧
+    ((x.closeWithSnapshot cut).reopenWithSnapshot mm0).db.blocks = x.db.blocks :=
+  ⟨(clean_restart_series mm0 cut x hnd hge).1, (clean_restart_series mm0 cut x hnd hge).2.1⟩
+
+/-- Nothing observable depends on where the head chunk starts. -/
+theorem cut_irrelevant (mm0 : Option Int) (cut1 cut2 : Nat → Nat) (x : SnapDb)
+    (hnd : (x.db.series.map (·.idx)).Nodup)
+    (hge : ∀ s ∈ x.db.series, ∀ p ∈ s.phys, x.db.rwCut ≤ p.t) (a b : Int) :
+    ((x.closeWithSnapshot cut1).reopenWithSnapshot mm0).db.query a b =
+      ((x.closeWithSnapshot cut2).reopenWithSnapshot mm0).db.query a b := by
+  obtain ⟨s1, b1, m1⟩ := clean_restart_series mm0 cut1 x hnd hge
+  obtain ⟨s2, b2, m2⟩ := clean_restart_series mm0 cut2 x hnd hge
+  exact query_eq_of_series_eq _ _ a b (by rw [s1, s2]) (by rw [b1, b2]) m1 m2
+
+/-- Clause 1 at a clean shutdown, reduced to durability: if the WAL replay of the directory rebuilds
+    the live head (`hwal`, C01/C03's business), the start from the snapshot and the start without it
+    answer every query alike — code as found and repaired alike, for every cut. -/
+theorem snapshot_eq_wal_clean (mm0 : Option Int) (cut : Nat → Nat) (x : SnapDb)
+    (hnd : (x.db.series.map (·.idx)).Nodup)
+    (hge : ∀ s ∈ x.db.series, ∀ p ∈ s.phys, x.db.rwCut ≤ p.t)
+    (hwal : x.db.closeState.reopen.series = x.db.series.filter (fun s => !s.phys.isEmpty)) (a b : Int) :
+    ((x.closeWithSnapshot cut).reopenWithSnapshot mm0).db.query a b =
+      (x.closeWithSnapshot cut).reopenPlain.db.query a b := by
+  obtain ⟨s1, b1, m1⟩ := clean_restart_series mm0 cut x hnd hge
+  show _ = ({ x.db.closeState.closeState.reopen with app := none } : Db).query a b
+  rw [query_app_none, closeState_idem]
+  apply query_eq_of_series_eq _ _ a b
+  · rw [s1, hwal]
+  · rw [b1, Db.reopen_eq_initHead, initHead_blocks _ _ (rwBase_series _), rwBase_blocks]; rfl
+  · exact m1
+  · rw [Db.reopen_eq_initHead]
+    exact initHead_samples_ge_minT _ _ (rwBase_series _) (by rw [rwBase_minValid]; exact Int.le_refl _)
+
+/-- The hypotheses are met by a concrete state after a compaction, with a deletion, two series and a
+    chunk boundary. -/
+def exampleLive : SnapDb :=
+  { db := Db.after { cfg := ⟨100, 0⟩ }
+      [.begin, .app 0 10 1, .app 1 20 2, .app 0 250 3, .app 1 260 4, .commit, .compact,
+       .begin, .app 0 270 5, .app 1 380 6, .commit, .del 255 265 none] }
+
+example : (exampleLive.db.series.map (·.idx)).Nodup ∧
+    (∀ s ∈ exampleLive.db.series, ∀ p ∈ s.phys, exampleLive.db.rwCut ≤ p.t) ∧
+    exampleLive.db.closeState.reopen.series = exampleLive.db.series.filter (fun s => !s.phys.isEmpty) ∧
+    exampleLive.db.blocks.length = 1 := by
   decide
 
 /-- Clause 2: an unreadable (damaged) snapshot, an outdated one (last WAL segment older than the
